@@ -8,9 +8,11 @@
 
   OBLIGATIONS (audited by `check` with `#print axioms`):
     partition_fifo, partition_fifo_at_await, exactly_once, retry_is_remainder, truncation_counted,
-    teardown_only_loss, no_delivery_after_teardown
+    teardown_only_loss, no_delivery_after_teardown, take_hands_over, watcher_runs_outside_lock,
+    watcher_reentry_keeps_batch
 -/
 import EmitModel.Lemmas.Batcher
+import EmitModel.Lemmas.BatcherExt
 
 namespace EmitModel.C06
 open EmitModel.Batcher EmitModel.Sched
@@ -93,6 +95,59 @@ theorem no_delivery_after_teardown (cfg : Cfg) (s s' : St) (l : Label) (hd : s.r
     step_elim hs
     all_goals simp_all
 
+/-! ### Watchers (`when_empty` / `when_flushed` callbacks) that re-enter the channel -/
+
+/-- **The swap-out.** The one critical section of the receiver loop (lib.rs:369-400) takes the whole pending batch
+    together with every watcher registered on it and leaves the shared state EMPTY — this is the point
+    `Sender::when_empty` promises ("a point where the current batch is empty") — and it runs no callback: the
+    callbacks are separate, later labels (`rxFireTake`, `rxFireFlush`). -/
+theorem take_hands_over (s s' : St) (h : rxTake s = some s') :
+    s'.pending = [] ∧ s'.pendTakeW = [] ∧ s'.pendFlushW = [] ∧
+    s'.rx.takenBatch = s.pending ∧ s'.rx.takeWs = s.pendTakeW ∧ s'.rx.ws = s.pendFlushW ∧
+    s'.firedTake = s.firedTake ∧ s'.fired = s.fired := by
+  unfold rxTake at h
+  split at h
+  · split at h <;> simp at h <;> subst h <;> simp_all
+  · simp at h
+
+/-- **A callback runs outside the lock.** The label that runs one watcher callback (`notify_on_take` /
+    `notify_on_flush`, lib.rs:403, 461, 466) records that it ran — exactly that watcher, exactly once — and touches
+    nothing behind the mutex and nothing of the batch the receiver holds; and in the state it runs in, EVERY sender
+    operation is enabled (the `Sender` still in hand): a callback that re-enters the channel with `send`,
+    `try_send`, `when_flushed`, `when_empty` (or a blocking send, or metrics sampling — a read) performs an ordinary
+    sender step; the receiver never makes it wait. -/
+theorem watcher_runs_outside_lock (cfg : Cfg) (s s' : St) (l : Label) (hl : l = .rxFireTake ∨ l = .rxFireFlush)
+    (h : step cfg s l = some s') :
+    s'.pending = s.pending ∧ s'.pendTakeW = s.pendTakeW ∧ s'.pendFlushW = s.pendFlushW ∧
+    s'.isOpen = s.isOpen ∧ s'.inBatch = s.inBatch ∧ s'.senderAlive = s.senderAlive ∧
+    s'.rx.takenBatch = s.rx.takenBatch ∧ s'.calls = s.calls ∧
+    (∃ w, (l = .rxFireTake ∧ s'.firedTake = s.firedTake ++ [w] ∧ s'.fired = s.fired ∧ s.rx.takeWs = w :: s'.rx.takeWs) ∨
+          (l = .rxFireFlush ∧ s'.fired = s.fired ++ [w] ∧ s'.firedTake = s.firedTake ∧ s.rx.ws = w :: s'.rx.ws)) ∧
+    (s.senderAlive = true → ∀ m : Label, m.isSender = true → (step cfg s' m).isSome = true) := by
+  have hen : s'.senderAlive = s.senderAlive →
+      (s.senderAlive = true → ∀ m : Label, m.isSender = true → (step cfg s' m).isSome = true) :=
+    fun e ha m hm => sender_enabled cfg s' m hm (e ▸ ha)
+  rcases hl with rfl | rfl
+  · step_elim h
+    all_goals simp_all
+  · step_elim h
+    all_goals simp_all
+
+/-- **A re-entrant watcher cannot disturb the batch in hand.** Whatever sender operations are performed — from
+    inside a callback or from any other thread — between the swap-out of a batch and its hand-over (or at any other
+    time), the receiver's control point with the batch and the watchers it holds is untouched and nothing is handed
+    to the processor by them; whatever they get accepted lands in the pending queue, after the batch in hand
+    (`partition_fifo` holds in the resulting state: it is reachable). -/
+theorem watcher_reentry_keeps_batch (cfg : Cfg) (s s' : St) (h : Reachable cfg s) (ls : List Label)
+    (hl : ∀ l ∈ ls, l.isSender = true) (hrun : run (step cfg) s ls = some s') :
+    s'.rx = s.rx ∧ s'.calls = s.calls ∧ s'.firstAttempts = s.firstAttempts ∧
+    s'.acceptedKept = s'.firstAttempts.flatten ++ s.rx.takenBatch ++ s'.pending := by
+  obtain ⟨e1, e2, e3⟩ := sender_run_rx cfg ls s s' hl hrun
+  refine ⟨e1, e2, e3, ?_⟩
+  have := partition_fifo cfg s' (Sched.Reachable.run h hrun)
+  rw [e1] at this
+  exact this
+
 /-! ### Non-vacuity: concrete reachable states in which the clauses above are not trivially true -/
 
 /-- capacity 2: three sends overflow once; the receiver takes `[3]`, the processor returns remainder `[3]`,
@@ -107,5 +162,14 @@ example : ∃ s, Reachable (Cfg.real 2) s ∧ s.firstAttempts = [[3]] ∧ s.rx.t
 
 example : ∃ s, Reachable (Cfg.real 2) s ∧ s.tornDown = true ∧ s.pendingAtTeardown = [2] ∧ s.firstAttempts = [[1]] :=
   ⟨_, ⟨[.send 1, .rxTake, .rxBegin, .send 2, .dropReceiver], rfl⟩, by decide⟩
+
+/-- the demo of seeded change C06-r3m2: [0] is being processed, [1] is pending with a `when_empty` watcher; the
+    batch completes, the receiver swaps [1] out, the watcher runs and `try_send`s 2 from inside the callback — an
+    ordinary sender step: 2 is accepted behind the batch in hand, and both are handed over, in order -/
+example : ∃ s, Reachable (Cfg.real 16) s ∧ s.rx = .taken [1] [] [] true ∧ s.pending = [2] ∧ s.firedTake = [7] ∧
+    ∃ s', run (step (Cfg.real 16)) s [.rxBegin, .rxOutcome .ok, .rxTake, .rxBegin] = some s' ∧
+      s'.firstAttempts = [[0], [1], [2]] ∧ s'.acceptedKept = [0, 1, 2] :=
+  ⟨_, ⟨[.send 0, .rxTake, .rxBegin, .send 1, .whenEmpty 7, .rxOutcome .ok, .rxTake, .rxFireTake, .trySend 2], rfl⟩,
+   by decide, by decide, by decide, _, rfl, by decide, by decide⟩
 
 end EmitModel.C06
